@@ -130,11 +130,23 @@ pub fn group_scheme<S: SizeLaw>(rec: &mut Rec, cfgs: Vec<KeyCfg>) {
         // every polynomial shape on its own: the size law does not depend on the content of the polynomial
         // (zero, constant, polynomials that do not use all variables, sparse and dense ones)
         for (sname, sp) in shapes.iter() {
-            for h in [None, hid] {
+            // every (degree bound, hiding) setting the key serves
+            let settings: Vec<(Option<usize>, Option<usize>)> = vec![(None, None), (None, hid), (bound, None), (bound, hid)];
+            let mut seen: Vec<(Option<usize>, Option<usize>)> = Vec::new();
+            for (bd, h) in settings {
                 if h.is_some() && !S::HIDING {
                     continue;
                 }
-                let one = lp::<S>("s", sp.clone(), None, h);
+                if let Some(d) = bd {
+                    if S::degree(sp) > d {
+                        continue;
+                    }
+                }
+                if seen.contains(&(bd, h)) {
+                    continue;
+                }
+                seen.push((bd, h));
+                let one = lp::<S>("s", sp.clone(), bd, h);
                 let cs = match commit_set::<S>(&keys, vec![one], rec.seed, 0) {
                     Ok(c) => c,
                     Err(_) => continue,
@@ -148,7 +160,7 @@ pub fn group_scheme<S: SizeLaw>(rec: &mut Rec, cfgs: Vec<KeyCfg>) {
                     rec.obs(&format!("{}|shape|{}|{}", S::NAME, sname.split(|c| c == '(' || c == '[').next().unwrap(), bytes == want));
                     if bytes != want || reported != bytes {
                         ok = false;
-                        viol(rec, S::NAME, "proof-size", &id, format!("proof for the single polynomial '{}' (hiding {:?}) has {} bytes (serialized_size {}), the scheme's law gives {}", sname, h, bytes, reported, want));
+                        viol(rec, S::NAME, "proof-size", &id, format!("proof for the single polynomial '{}' (degree bound {:?}, hiding {:?}) has {} bytes (serialized_size {}), the scheme's law gives {}", sname, bd, h, bytes, reported, want));
                     }
                 }
             }
